@@ -35,7 +35,9 @@ def obligations(cx):
                 for n in ast.walk(fn):
                     if isinstance(n, ast.While): whiles.append((path, fn.name, n.lineno))
     cx.unknown_whiles = [w for w in whiles if w[1] != 'calculate_partial_fluxes']
-    cx.ob("scan.only-known-while-loops", [], blit(all(fn == 'calculate_partial_fluxes' for _, fn, _ in whiles) and len(whiles) <= 1), kind='scan', found=str(whiles),
+    # a while loop the check has no variant for is "termination not established", not "does not terminate": it counts as a violation only with
+    # a non-terminating input found by the native watchdog search (native_checks below), otherwise the check is undecided
+    cx.ob("scan.only-known-while-loops", [], blit(all(fn == 'calculate_partial_fluxes' for _, fn, _ in whiles) and len(whiles) <= 1), kind='scan', found=str(whiles), inductive=True,
           statement="the only while loop of the package is the fixed-point iteration of calculate_partial_fluxes")
     for model in ('NRTL',):
         mix = W.mixture(src); pv = C2.pv_obj(src, mix)
@@ -90,7 +92,7 @@ def obligations(cx):
                                 bad.append((path, fn.name, n.lineno, tgt))
                     if not (_is_range(n.iter) or isinstance(n.iter, (ast.Name, ast.Attribute, ast.Call, ast.Subscript))):
                         bad.append((path, fn.name, n.lineno, 'iterable ' + ast.unparse(n.iter)))
-    cx.ob("scan.for-loops-finite", [], blit(not bad and nloops > 0), kind='scan', found=str(bad), loops=nloops,
+    cx.ob("scan.for-loops-finite", [], blit(not bad and nloops > 0), kind='scan', found=str(bad), loops=nloops, inductive=True,
           statement="every for loop iterates over a range or a list that its body does not grow")
     # ------------------------------------------------------------------ no recursion among package functions
     EXTERNAL = {'joblib', 'numpy', 'json', 'pandas', 'optimize', 'attr', 'datetime', 'typing', 'Path', 'math', 'copy', 'plt', 'matplotlib', 'os'}
@@ -146,7 +148,7 @@ def obligations(cx):
                         if k is not None: callees.add((k, nm))
             graph[(cls, name)] = callees
     cyc = find_cycle(graph)
-    cx.ob("scan.call-graph-acyclic", [], blit(cyc is None), kind='scan', found=str(cyc), statement="no recursion among package functions (by name, over-approximated)")
+    cx.ob("scan.call-graph-acyclic", [], blit(cyc is None), kind='scan', found=str(cyc), inductive=True, statement="no recursion among package functions (by name, over-approximated)")
     if not cx.no_variant and len(cx.obs) < 30: raise Unsupported("only %d obligations generated for C10: vacuous run" % len(cx.obs))
     cx.assume_note("external calls terminate (scipy optimisers have iteration caps; numpy/pandas kernels)")
     cx.assume_note("termination of for loops over finite ranges/lists and of straight-line code is by the Python semantics of DESIGN 2.2")
